@@ -5,22 +5,43 @@
 //     primitive trace the entry state a crash would leave (os.Create semantics for plain puts,
 //     all-or-nothing for the atomic marker / tar) is materialised, the real reader loads it,
 //     and the Lean model judges the same state; then a further fault-free store must repair it.
+//
 //  2. faults: every single (thorough: every pair of) failing Put/Write/Close during the store.
+//
 //  3. tampering: every single-file flip / truncate / delete / add / rename of a complete entry,
 //     marker deletion / garbage / other-deps.
+//
 //  4. tar layout: absent, garbage, truncated, tampered-inside archives.
+//
 //  5. concurrency: N goroutines store and load one key on a disk bucket with the real file
 //     locker and seeded yields at the verif hook points.
+//
 //  6. the cache provider with a store that loses writes.
+//
 //  7. the writer step machine: every traced store — files copied by the REAL parallel
 //     storage.Copy, every Write split in 16-byte pieces — is replayed action by action
 //     (acquire / truncate / grow / fill / fail / commit / crash, in the traced order) through the
 //     Lean `runActs`: complete stores, every crash prefix, every fault schedule, and
 //     multi-writer histories (2-3 writers, one blocked on the lock while another is mid-store,
 //     faults, crashes, leftover / invalid / unparsable markers).
+//
 //  8. the write phase as a function of the fault schedule (Lean `storeRun`, built on C15's
 //     copyAll / atomicRun) against the real store; the tar writer (one atomic object) under
 //     every failing step and every crash point.
+//
+//  9. "a store that has returned is over" (partLate): a store with an injected fault on one file
+//     while sibling copy jobs are GATED (slow I/O: held before their Put / between two Writes /
+//     before their Close), under parallelism 1/2/4/16, over empty / torn / invalid-marker
+//     entries, followed by 0-2 further writers (clean / fault / crash).  If the failed store
+//     returns while jobs of it are still held, the later writers run first and the gates are then
+//     released level by level; after every level and after everything has quiesced the entry is
+//     loaded and the history so far is replayed by the Lean step machine, in which a writer
+//     that has returned is inert (finished_writer_is_inert).  The tracing bucket checks for EVERY
+//     primitive of EVERY part: not after the writer's store returned
+//     (write-after-store-returned), not outside the writer's exclusive lock
+//     (write-without-exclusive-lock), not on an entry that carries a valid marker
+//     (entry-modified-after-marker); a store that returns holding the lock is
+//     lock-held-after-store-returned.
 //
 // Oracle (implementation only): a load is "not cached", content whose files equal the pinned
 // content, or a digest-mismatch error — never other content; store returned nil ⇒ next load is a
@@ -57,6 +78,7 @@ import (
 	"github.com/bufbuild/buf/private/pkg/storage/storagearchive"
 	"github.com/bufbuild/buf/private/pkg/storage/storagemem"
 	"github.com/bufbuild/buf/private/pkg/storage/storageos"
+	"github.com/bufbuild/buf/private/pkg/thread"
 	"github.com/bufbuild/buf/private/pkg/uuidutil"
 	"github.com/bufbuild/buf/private/pkg/verifhook"
 	"github.com/bufbuild/verifharness/internal/bk"
@@ -128,6 +150,14 @@ type disk struct {
 	// oracle for complete_is_stable: primitives that modified the entry while it carried a valid marker
 	validMarker func(content string) bool
 	afterValid  []string
+	// oracle "once a store has returned it performs no further writes": primitives of a writer
+	// recorded after its PutModuleDatas returned
+	late []string
+	// oracle "the entry only changes under the exclusive lock": primitives of a writer that runs
+	// under the lock file, issued while it does not hold the exclusive lock
+	unlocked []string
+	// stores that returned still holding the exclusive lock
+	leaks []string
 }
 
 func newDisk(mem storage.ReadWriteBucket) *disk {
@@ -156,6 +186,13 @@ type tbucket struct {
 	released  bool // the model-visible release (fail / commitFail / commit / crash) has happened
 	committed bool // marker put succeeded
 	markerTry bool // a primitive on module.yaml was issued
+	locking   bool // runs with the lock file (wlocker): every primitive must happen under the exclusive lock
+	returned  bool // PutModuleDatas has returned
+	// gates (slow I/O): a primitive named here is held until its level is released
+	gates   map[fkey]int
+	levels  []chan struct{}
+	active  int // objects between the start of their Put and the end of their Close
+	waiting int // of those: held at a gate
 }
 
 func (d *disk) writer_(w int, faults ...fkey) *tbucket {
@@ -195,6 +232,14 @@ func (b *tbucket) enter(p prim) (dead bool, fault bool) {
 	if p.path == b.d.mpath {
 		b.markerTry = true
 	}
+	if b.returned {
+		b.d.late = append(b.d.late, fmt.Sprintf("writer %d: %v", b.w, p))
+		noteLate(fmt.Sprintf("writer %d: %v", b.w, p))
+	}
+	if b.locking && !(b.acquired && !b.released) {
+		b.d.unlocked = append(b.d.unlocked, fmt.Sprintf("writer %d: %v", b.w, p))
+		noteUnlocked(fmt.Sprintf("writer %d: %v", b.w, p))
+	}
 	if b.d.validMarker != nil && !p.fault && !b.drop {
 		if mk, err := bk.ReadAll(ctx, b.d.mem, b.d.mpath); err == nil && b.d.validMarker(mk) {
 			b.d.afterValid = append(b.d.afterValid, fmt.Sprintf("writer %d: %v", b.w, p))
@@ -223,16 +268,78 @@ func (b *tbucket) act(format string, args ...any) {
 	b.d.hist = append(b.d.hist, fmt.Sprintf(format, args...))
 }
 
+// gate holds the calling copy job before the named primitive until the primitive's level is
+// released (slow I/O: held before Put / between Writes / before Close).
+func (b *tbucket) gate(k fkey) {
+	if b.gates == nil {
+		return
+	}
+	lvl, ok := b.gates[k]
+	if !ok {
+		return
+	}
+	b.d.mu.Lock()
+	b.waiting++
+	b.d.mu.Unlock()
+	<-b.levels[lvl]
+	b.d.mu.Lock()
+	b.waiting--
+	b.d.mu.Unlock()
+}
+
+// release lets every job held at a gate of this level (and every later arrival) through.
+func (b *tbucket) release(lvl int) {
+	select {
+	case <-b.levels[lvl]:
+	default:
+		close(b.levels[lvl])
+	}
+}
+
+// settle waits (bounded) until no copy job of this writer is moving: every object whose Put has
+// begun is either closed or held at a gate.  all: until every object is closed.
+func (b *tbucket) settle(all bool, max time.Duration) bool {
+	deadline := time.Now().Add(max)
+	stable := 0
+	for {
+		b.d.mu.Lock()
+		ok := b.active == b.waiting
+		if all {
+			ok = b.active == 0
+		}
+		b.d.mu.Unlock()
+		if ok {
+			stable++
+			if stable >= 3 {
+				return true
+			}
+		} else {
+			stable = 0
+		}
+		if time.Now().After(deadline) {
+			return false
+		}
+		runtime.Gosched()
+		time.Sleep(100 * time.Microsecond)
+	}
+}
+
 func (b *tbucket) Put(ctx context.Context, path string, opts ...storage.PutOption) (storage.WriteObjectCloser, error) {
 	atomic := storage.NewPutOptions(opts).Atomic()
 	b.maybePause()
 	b.d.mu.Lock()
+	b.active++
+	b.d.mu.Unlock()
+	b.gate(fkey{path, 'p', 0})
+	b.d.mu.Lock()
 	defer b.d.mu.Unlock()
 	dead, fault := b.enter(prim{kind: 'p', path: path, atomic: atomic})
 	if dead {
+		b.active--
 		return nil, errDead
 	}
 	if fault {
+		b.active--
 		return nil, errInjected
 	}
 	o := &tobj{b: b, path: path, atomic: atomic}
@@ -272,6 +379,7 @@ func (o *tobj) Write(p []byte) (int, error) {
 		}
 		piece := string(p[written:end])
 		o.b.maybePause()
+		o.b.gate(fkey{o.path, 'w', o.n})
 		o.b.d.mu.Lock()
 		i := o.n
 		o.n++
@@ -299,8 +407,10 @@ func (o *tobj) Write(p []byte) (int, error) {
 }
 func (o *tobj) Close() error {
 	o.b.maybePause()
+	o.b.gate(fkey{o.path, 'c', 0})
 	o.b.d.mu.Lock()
 	defer o.b.d.mu.Unlock()
+	o.b.active-- // the job of this object is over when this critical section ends
 	dead, fault := o.b.enter(prim{kind: 'c', path: o.path, atomic: o.atomic})
 	if dead {
 		return errDead
@@ -449,9 +559,33 @@ func newWorld(m mod, init map[string]string) *world {
 // store runs the REAL putModuleData as writer tb (parallel file copies) and appends the action
 // with which the store returned. Result: the model's pc of that writer.
 func (wd *world) store(tb *tbucket) (pc string, err error) {
+	wd.d.mu.Lock()
+	tb.locking = true
+	wd.d.mu.Unlock()
 	err = bufmodulestore.NewModuleDataStore(logger, tb, wlocker{tb}).PutModuleDatas(ctx, []bufmodule.ModuleData{wd.m.data})
+	// a store that returns still holding the exclusive lock blocks every later store and load of
+	// the entry for ever (flock: until the process exits); record it and let the history go on
+	wd.d.lmu.Lock()
+	leaked := wd.d.writer && wd.d.holder == tb
+	if leaked {
+		wd.d.writer = false
+		wd.d.holder = nil
+		wd.d.lcond.Broadcast()
+	}
+	wd.d.lmu.Unlock()
 	wd.d.mu.Lock()
 	defer wd.d.mu.Unlock()
+	if leaked && !tb.dead {
+		wd.d.leaks = append(wd.d.leaks, fmt.Sprintf("writer %d: its store returned (err=%v) without releasing the exclusive lock", tb.w, err))
+		if !tb.released {
+			tb.released = true
+			if !tb.committed && tb.n > tb.nAtLock {
+				tb.act("x%d", tb.w)
+			}
+		}
+	}
+	// from here on every primitive of this writer is a write after its store has returned
+	tb.returned = true
 	switch {
 	case tb.dead:
 		return "crashed", err
@@ -791,7 +925,10 @@ type caseCtx struct {
 	part string
 }
 
+var failedClasses = map[string]bool{}
+
 func (c caseCtx) fail(class, what string, input any) {
+	failedClasses[class] = true
 	c.run.Fail(hx.OracleFailure{Class: class, What: what, Input: input,
 		Replay: fmt.Sprintf("build/c09 --out /tmp/c09-replay --seed %d --tier %s --only %d", c.run.Seed, c.run.Tier, c.idx)})
 }
@@ -953,6 +1090,27 @@ func (tb *tbucket) firedOutsideMarker() int {
 	return n
 }
 
+// lockDiscipline: what the tracing bucket saw of one world so far — primitives outside the
+// exclusive lock and primitives after the writer's store had returned.
+func (c caseCtx) lockDiscipline(wd *world, how string) {
+	wd.d.mu.Lock()
+	unlocked := append([]string{}, wd.d.unlocked...)
+	late := append([]string{}, wd.d.late...)
+	leaks := append([]string{}, wd.d.leaks...)
+	hist := strings.Join(wd.d.hist, ",")
+	wd.d.mu.Unlock()
+	in := map[string]any{"part": c.part, "how": how, "history": hist}
+	if len(leaks) > 0 {
+		c.fail("lock-held-after-store-returned", fmt.Sprintf("%s: %v (every later store and load of the entry blocks until the process exits)", how, leaks), in)
+	}
+	if len(late) > 0 {
+		c.fail("write-after-store-returned", fmt.Sprintf("%s: primitives of a writer recorded after its store had returned: %v", how, late), in)
+	}
+	if len(unlocked) > 0 {
+		c.fail("write-without-exclusive-lock", fmt.Sprintf("%s: primitives issued by a writer that did not hold the exclusive lock of the entry: %v", how, unlocked), in)
+	}
+}
+
 func partCrash(run *hx.Run, idx int, m mod) {
 	c := caseCtx{run, idx, m, "crash"}
 	// the real store with its real parallel file copies
@@ -960,6 +1118,7 @@ func partCrash(run *hx.Run, idx int, m mod) {
 	tb := wd.d.writer_(0)
 	pc, err := wd.store(tb)
 	must(err)
+	c.lockDiscipline(wd, "fault-free store")
 	trace := wd.d.trace
 	hist := wd.d.hist
 	run.Count("crash:max-files-in-flight=" + strconv.Itoa(inFlightMax(trace)))
@@ -1021,6 +1180,7 @@ func partFaults(run *hx.Run, idx int, m mod) {
 			c.fail("store-fault-not-reported", how+": PutModuleDatas returned nil", map[string]any{"faults": fmt.Sprint(fs)})
 		}
 		entry := entryOf(wd.d.mem, m)
+		c.lockDiscipline(wd, how)
 		var exp *bool
 		if err == nil {
 			t := true
@@ -1191,9 +1351,14 @@ func partMulti(run *hx.Run, idx int, m mod, r *hx.Rand) {
 		if lates > 0 {
 			run.Count("multi:store-between-check-and-lock")
 		}
-		if len(wd.d.afterValid) > 0 {
-			c.fail("entry-modified-after-marker", fmt.Sprintf("a writer modified the entry while it carried a valid marker (readers stream without the lock): %v", wd.d.afterValid[0]),
-				map[string]any{"part": "multi", "init": kind, "plans": plans, "history": strings.Join(wd.d.hist, ",")})
+		c.lockDiscipline(wd, fmt.Sprintf("multi-writer history over %s, plans %v", kind, plans))
+		wd.d.mu.Lock()
+		afterValid := append([]string{}, wd.d.afterValid...)
+		histNow := strings.Join(wd.d.hist, ",")
+		wd.d.mu.Unlock()
+		if len(afterValid) > 0 {
+			c.fail("entry-modified-after-marker", fmt.Sprintf("a writer modified the entry while it carried a valid marker (readers stream without the lock): %v", afterValid[0]),
+				map[string]any{"part": "multi", "init": kind, "plans": plans, "history": histNow})
 		}
 		// oracle: some store returned nil ⇒ the entry loads with exactly the pinned files;
 		// whatever happened, a load never serves other content
@@ -1212,6 +1377,287 @@ func partMulti(run *hx.Run, idx int, m mod, r *hx.Rand) {
 			c.fail("load-other-error", "multi-writer history: "+class, in)
 		}
 	}
+}
+
+// ---------------------------------------------------------------------------------------
+// primitives after the store returned / outside the lock, seen in ANY part of the run (the parts
+// other than partLate do not hold copy jobs back, so there these are chance observations; they
+// are reported once, at the end of the run)
+
+var chance struct {
+	mu       sync.Mutex
+	late     []string
+	unlocked []string
+	curCase  int
+}
+
+func noteLate(s string) {
+	chance.mu.Lock()
+	if len(chance.late) < 20 {
+		chance.late = append(chance.late, fmt.Sprintf("case %d: %s", chance.curCase, s))
+	}
+	chance.mu.Unlock()
+}
+
+func noteUnlocked(s string) {
+	chance.mu.Lock()
+	if len(chance.unlocked) < 20 {
+		chance.unlocked = append(chance.unlocked, fmt.Sprintf("case %d: %s", chance.curCase, s))
+	}
+	chance.mu.Unlock()
+}
+
+// lateWait: how long a failed store is given to return while sibling copies are held back.  Not a
+// correctness criterion: on a tree whose store waits for its copy jobs the store cannot return
+// before the gates open whatever the bound is, and whenever a store DOES return the oracles are
+// evaluated on the trace, not on the clock.
+const lateWait = 20 * time.Millisecond
+
+type gateSpec struct {
+	File  string `json:"file"`
+	Prim  string `json:"held_before"`
+	Level int    `json:"released_at_level"`
+}
+
+// partLate: the family "a store that has returned is over".  Writer 0 stores with an injected
+// fault on one file while sibling copy jobs are GATED (slow I/O: held before their Put, between
+// two Writes or before their Close).  The harness gives the store a moment to return; a store that
+// waits for all its copy jobs (thread.Parallelize joins every dispatched job) cannot, so the gates
+// are then opened and the history continues as in partMulti.  If the failed store DOES return
+// while its jobs are held, the next writers (the first of them usually fault-free) store, then
+// the gates are released level by level and after each level — and after everything has
+// quiesced — the entry is loaded and the history so far is replayed by the Lean step machine, in
+// which a writer that has returned is inert.  Oracles, straight from the property:
+//
+//	write-after-store-returned    no primitive of writer W is recorded after W's store returned
+//	write-without-exclusive-lock  no primitive of W while W does not hold the exclusive lock
+//	entry-modified-after-marker   a complete entry is never modified
+//	store-nil-but-no-hit / wrong-content-served   a load after a successful store hits, with the
+//	                              pinned files, at every one of these moments
+func partLate(run *hx.Run, idx int, m mod, r *hx.Rand) {
+	c := caseCtx{run, idx, m, "late"}
+	ref := newWorld(m, nil)
+	files := ref.filesOrder
+	if len(files) < 2 {
+		// thread.Parallelize runs a single job inline: nothing can be left behind
+		run.Count("late:skipped-single-file-module")
+		return
+	}
+	keys := faultKeys(m)
+	perPath := map[string][]fkey{}
+	for _, k := range keys {
+		perPath[k.path] = append(perPath[k.path], k)
+	}
+	fpath := func(i int) string { return m.dirPath + "/files/" + files[i] }
+	oldPar := thread.Parallelism()
+	defer thread.SetParallelism(oldPar)
+	for sc := 0; sc < run.N(3, 10); sc++ {
+		init, kind := genInit(r, m)
+		for try := 0; try < 3 && (kind == "complete" || kind == "torn+unparsable-marker"); try++ {
+			init, kind = genInit(r, m) // these make every store return at once; keep them rare
+		}
+		nW := 1 + r.Intn(3)
+		par := hx.Pick(r, []int{1, 2, 2, 4, 4, 16})
+		thread.SetParallelism(par)
+		wd := newWorld(m, init)
+		tbs := make([]*tbucket, nW)
+		plans := make([]string, nW)
+		// writer 0: one failing primitive on one file, siblings gated
+		fi := r.Intn(len(files))
+		if par == 1 && fi == len(files)-1 {
+			fi = r.Intn(len(files) - 1)
+		}
+		fk := hx.Pick(r, perPath[fpath(fi)])
+		tb0 := wd.d.writer_(0, fk)
+		tb0.gates = map[fkey]int{}
+		tb0.levels = []chan struct{}{make(chan struct{}), make(chan struct{}), make(chan struct{})}
+		var specs []gateSpec
+		addGate := func(j int) {
+			ks := perPath[fpath(j)]
+			// held before the Put (file not yet created / truncated), between Writes, before the Close: equally likely
+			a := 0
+			switch r.Intn(3) {
+			case 1:
+				if len(ks) > 2 {
+					a = 1 + r.Intn(len(ks)-2)
+				}
+			case 2:
+				a = len(ks) - 1
+			}
+			lvl := r.Intn(2)
+			tb0.gates[ks[a]] = lvl
+			specs = append(specs, gateSpec{files[j], fmt.Sprintf("%c#%d", ks[a].kind, ks[a].idx), lvl})
+			if a+1 < len(ks) && r.Chance(1, 2) {
+				b := a + 1 + r.Intn(len(ks)-a-1)
+				tb0.gates[ks[b]] = lvl + 1
+				specs = append(specs, gateSpec{files[j], fmt.Sprintf("%c#%d", ks[b].kind, ks[b].idx), lvl + 1})
+			}
+		}
+		// Keep the failing job reachable while the gated ones sit on their semaphore slots: at most
+		// par-1 gated siblings (parallelism 1: only the last job); one scenario in five is free.
+		free := r.Chance(1, 5)
+		maxG := par - 1
+		var cand []int
+		for j := range files {
+			if j != fi {
+				cand = append(cand, j)
+			}
+		}
+		hx.Shuffle(r, cand)
+		switch {
+		case free:
+			for _, j := range cand {
+				if r.Chance(2, 3) || len(specs) == 0 {
+					addGate(j)
+				}
+			}
+		case par == 1:
+			addGate(len(files) - 1)
+		default:
+			g := 1 + r.Intn(maxG)
+			for _, j := range cand {
+				if g == 0 {
+					break
+				}
+				addGate(j)
+				g--
+			}
+		}
+		tbs[0] = tb0
+		plans[0] = fmt.Sprintf("fault %c#%d of %s, %d gate(s)", fk.kind, fk.idx, files[fi], len(specs))
+		for w := 1; w < nW; w++ {
+			switch k := r.Intn(6); {
+			case k < 3 || w == 1 && k < 5:
+				tbs[w] = wd.d.writer_(w)
+				plans[w] = "clean"
+			case k < 5:
+				tbs[w] = wd.d.writer_(w, hx.Pick(r, keys))
+				plans[w] = "fault"
+			default:
+				tbs[w] = wd.d.writer_(w)
+				tbs[w].crashAt = r.Intn(len(keys))
+				plans[w] = "crash"
+			}
+		}
+		pcs := make([]string, nW)
+		start := func(w int) chan struct{} {
+			done := make(chan struct{})
+			go func() {
+				defer close(done)
+				defer func() {
+					if p := recover(); p != nil {
+						pcs[w] = fmt.Sprint("panic:", p)
+					}
+				}()
+				pcs[w], _ = wd.store(tbs[w])
+			}()
+			return done
+		}
+		done0 := start(0)
+		early := false
+		select {
+		case <-done0:
+			early = true
+		case <-time.After(lateWait):
+		}
+		wd.d.mu.Lock()
+		heldAtReturn := tb0.active
+		wd.d.mu.Unlock()
+		if !early {
+			// the store is waiting for its copy jobs: slow I/O completes, then the store returns
+			for l := range tb0.levels {
+				tb0.release(l)
+			}
+			<-done0
+			heldAtReturn = 0
+		}
+		for w := 1; w < nW; w++ {
+			<-start(w)
+		}
+		in := map[string]any{"part": "late", "scenario": sc, "init": kind, "parallelism": par, "writers": nW, "plans": plans,
+			"fault": fmt.Sprintf("%c#%d of %s", fk.kind, fk.idx, files[fi]), "gates": specs}
+		anyOK := false
+		for _, pc := range pcs {
+			anyOK = anyOK || pc == "ok"
+		}
+		// one observation of the entry: what a reader finds now, and the step machine on the history so far
+		lastLen, snaps := -1, 0
+		snap := func(how string) {
+			wd.d.mu.Lock()
+			hist := append([]string{}, wd.d.hist...)
+			entry := entryOf(wd.d.mem, m)
+			wd.d.mu.Unlock()
+			if len(hist) == lastLen {
+				return // nothing happened since the last observation
+			}
+			lastLen = len(hist)
+			snaps++
+			run.Case(wd.runLine(init, nW, hist), implRunOut(m, entry, pcs), true)
+			class := c.judge(entry, "late: "+how, nil)
+			if anyOK && class != "hit" {
+				in2 := map[string]any{"moment": how, "history": strings.Join(hist, ","), "pcs": pcs}
+				for k, v := range in {
+					in2[k] = v
+				}
+				c.fail("store-nil-but-no-hit", fmt.Sprintf("%s: a store returned nil (pcs %v) but the entry now loads as %s", how, pcs, class), in2)
+			}
+		}
+		snap("every store has returned")
+		for l := range tb0.levels {
+			tb0.release(l)
+			tb0.settle(false, 200*time.Millisecond)
+			snap(fmt.Sprintf("gates of level %d released", l))
+		}
+		if !tb0.settle(true, 2*time.Second) {
+			run.Count("late:not-quiesced")
+		}
+		snap("all copy jobs have finished")
+		wd.d.mu.Lock()
+		late := append([]string{}, wd.d.late...)
+		unlocked := append([]string{}, wd.d.unlocked...)
+		afterValid := append([]string{}, wd.d.afterValid...)
+		leaks := append([]string{}, wd.d.leaks...)
+		in["history"] = strings.Join(wd.d.hist, ",")
+		wd.d.mu.Unlock()
+		in["pcs"] = pcs
+		run.Count("late:init=" + kind)
+		run.Count("late:parallelism=" + strconv.Itoa(par))
+		run.Count("late:writers=" + strconv.Itoa(nW))
+		run.Count("late:fault-kind=" + string(fk.kind))
+		run.Count("late:gates=" + strconv.Itoa(len(specs)))
+		for _, g := range specs {
+			run.Count("late:gate-before=" + g.Prim[:1])
+		}
+		for _, pc := range pcs {
+			run.Count("late:pc=" + strings.SplitN(pc, ":", 2)[0])
+		}
+		run.Count("late:observations=" + strconv.Itoa(snaps))
+		if early {
+			run.Count("late:store-returned-while-jobs-held=" + b01(heldAtReturn > 0))
+		} else {
+			run.Count("late:store-waited-for-held-jobs")
+		}
+		if len(late) > 0 {
+			c.fail("write-after-store-returned", fmt.Sprintf("writer 0's store (%s) returned %q while %d of its copy jobs were still in progress; after the return these primitives of it were recorded: %v",
+				plans[0], pcs[0], heldAtReturn, late), in)
+		}
+		if len(unlocked) > 0 {
+			c.fail("write-without-exclusive-lock", fmt.Sprintf("primitives issued by a writer that did not hold the exclusive lock of the entry: %v", unlocked), in)
+		}
+		if len(leaks) > 0 {
+			c.fail("lock-held-after-store-returned", fmt.Sprintf("%v", leaks), in)
+		}
+		if len(afterValid) > 0 {
+			c.fail("entry-modified-after-marker", fmt.Sprintf("a writer modified the entry while it carried a valid marker (readers stream without the lock): %v", afterValid), in)
+		}
+	}
+}
+
+func b01(b bool) string {
+	if b {
+		return "1"
+	}
+	return "0"
 }
 
 func partTamper(run *hx.Run, idx int, m mod, r *hx.Rand) {
@@ -1840,7 +2286,12 @@ func main() {
 			}()
 			mods := genModules(cr, i)
 			datas := []bufmodule.ModuleData{mods[0].data, mods[1].data}
+			chance.mu.Lock()
+			chance.curCase = i
+			chance.mu.Unlock()
+			lr := cr.Fork(0x1a7e) // own stream: the other parts draw what they drew before
 			for _, m := range mods {
+				partLate(run, i, m, lr)
 				partCrash(run, i, m)
 				partFaults(run, i, m)
 				partMulti(run, i, m, cr)
@@ -1861,5 +2312,20 @@ func main() {
 			}
 		}()
 	}
+	// chance observations of the other parts (a primitive after the writer's store returned is a
+	// violation wherever it is seen; partLate is the part that provokes it deterministically)
+	time.Sleep(2 * time.Millisecond)
+	chance.mu.Lock()
+	if len(chance.late) > 0 && !failedClasses["write-after-store-returned"] {
+		run.Fail(hx.OracleFailure{Class: "write-after-store-returned", What: fmt.Sprintf("primitives of a writer recorded after its store had returned (seen by chance, outside the gated part): %v", chance.late),
+			Input: map[string]any{"observed": chance.late}, Replay: fmt.Sprintf("build/c09 --out /tmp/c09-replay --seed %d --tier %s", run.Seed, run.Tier)})
+	}
+	if len(chance.unlocked) > 0 && !failedClasses["write-without-exclusive-lock"] {
+		run.Fail(hx.OracleFailure{Class: "write-without-exclusive-lock", What: fmt.Sprintf("primitives issued by a writer that did not hold the exclusive lock (seen outside the checked parts): %v", chance.unlocked),
+			Input: map[string]any{"observed": chance.unlocked}, Replay: fmt.Sprintf("build/c09 --out /tmp/c09-replay --seed %d --tier %s", run.Seed, run.Tier)})
+	}
+	run.CountN("chance:late-primitives", len(chance.late))
+	run.CountN("chance:unlocked-primitives", len(chance.unlocked))
+	chance.mu.Unlock()
 	run.Finish()
 }
